@@ -569,6 +569,33 @@ pub fn c14_check<const N: usize>(_o: &Opts, rep: &mut Report) {
     }
 }
 
+/// C01's `Extend<&T>` (T: Copy) coverage: the byte-buffer space, judging only the deque actions.
+pub fn c01_extend_ref<const N: usize>(rep: &mut Report) {
+    let mut viols: Vec<(Vec<IoAct>, IoAct, String)> = vec![];
+    let mut n = 0u64;
+    let sp = io_explore::<N>(default_via(), |r, act, _obs, _contents, _key, probs| {
+        if !act.is_io() {
+            n += 1;
+            for p in probs {
+                viols.push((r.to_vec(), *act, p.clone()));
+            }
+        }
+    });
+    rep.transitions += n;
+    rep.validated += n;
+    rep.evaluations += n;
+    rep.nontrivial += n / 2;
+    *rep.by_action.entry("extend_ref(u8 twin)".into()).or_insert(0) += n;
+    rep.count("u8_twin_states", sp.recipes.len() as u64);
+    for (r, act, p) in viols {
+        rep.violation(Violation {
+            sig: format!("N={}:{}:u8-twin", N, act.name()),
+            detail: format!("N={} CircularBuffer<N,u8> state <{}> {}: {}", N, show_recipe(&r), act.show(), p),
+            replay: ReplayCase { n: N, ctor: "new".into(), recipe: recipe_str(&r), filling: "none".into(), act: act.show(), fault: "none".into(), extra: "io".into() },
+        });
+    }
+}
+
 /// C16: from every state of the I/O space, every I/O action through std::io and through the
 /// embedded trait(s) compiled into this build: identical observation, contents and memory image.
 pub fn c16_check<const N: usize>(_o: &Opts, rep: &mut Report) {
@@ -638,7 +665,7 @@ pub fn replay_io<const N: usize>(c: &Case) -> Result<i32, String> {
     println!("N={} state <{}> {}", N, show_recipe(&recipe), act.show());
     println!("  std::io: {:?} contents after {:?}", o0, c0);
     let mut code = 0;
-    if c.prop == "C14" {
+    if c.prop == "C14" || c.prop == "C01" {
         for p in &p0 {
             println!("VIOLATION REPRODUCED: {}", p);
             code = 1;
